@@ -1,7 +1,7 @@
 # Per-property claims; edited as checks are built. Executed by gen_manifest.py.
 PENDING = "check not built yet in this round (planned in DESIGN.md); not claimed until it runs clean on the unchanged tree"
 
-for _p in ["C01","C02","C03","C04","C05","C07","C08","C09","C10","C11","C12","C13","C14","C16","C17","C18"]:
+for _p in ["C04","C05","C07","C11","C12","C13","C14","C16","C17","C18"]:
     na(_p, PENDING)
 
 na("C06", "quantifies over every byte prefix of a runtime tape and over archive/tar's behaviour on arbitrary bytes plus a termination argument for the resynchronisation loop; no sound dataflow/typestate rule in reach decides any clause of it (the only structural ingredient, earlier records are never touched, is claimed under C05)")
@@ -10,3 +10,28 @@ claim("C15",
       "Decides for all paths of the source that no exported method of the filesystem or file handle can reach a tape- or index-changing call while the instance is read-only (may-not-reach over the static call graph with per-function must-dataflow for the guards), that the flags those guards rely on can only be set on a writable instance, and that the read-only branch returns a permission error. Does not decide equality of read results with a writable twin.",
       "static may-not-reach: call-graph sink reachability + go/cfg must-dataflow guard domination + who-may-write field rules",
       "DESIGN.md §3 C15")
+
+claim("C01",
+      "Decides, for every call site and path of the source, three code-shape conditions without which the live index cannot equal a rebuild from the tape: index rows are changed only underneath recovery.Index (call-graph cut), the header appended to the tape is exactly the snapshot the live index receives modulo the sign/encrypt wrappers (must-dataflow per WriteHeader site), every success exit after an append replays through recovery.Index, and the header converters pair fields correctly. Does not decide replay semantics over histories or tar fidelity.",
+      "static call-graph cut (who-may-call) + go/cfg must-dataflow (snapshot window, append-then-index) + struct-literal field pairing",
+      "DESIGN.md §3 C01")
+claim("C02",
+      "Narrow: decides that the four header converters assign every field from its same-meaning counterpart and that every tape-appending call of the filesystem layer is reachable only across the success edge of the lookup that establishes its precondition (parent exists, source/target exists, directory empty). The equivalence with a reference filesystem itself is not decided.",
+      "struct-literal field pairing + go/cfg success-edge domination of append calls by inventory.Stat/List lookups",
+      "DESIGN.md §3 C02")
+claim("C03",
+      "Decides the structure of the content pipeline for every format key and both writing functions: format/level switch exhaustiveness against config.Known* (evaluated from source), suffix add/remove agreement, agreement of the size pass and the write pass, inverse nesting of write and read stages by value identity, Flush/Close order before the encoded size is read, and save/restore of the logical size. Byte equality through the codecs is not decided.",
+      "switch-table exhaustiveness over constant objects + argument agreement + value-identity wiring + go/cfg must-dataflow for finish order",
+      "DESIGN.md §3 C03")
+claim("C08",
+      "Decides fail-closed control flow: every success return of VerifyString/Verify/VerifyHeader outside the None arm lies only on paths across the success edge of a crypto-module verification primitive; replay, fetch and query use a header only after verification succeeded on it; each recovery.Index call site either passes a fail-closed verifier or provably overwrites what was read from the tape; Fetch checks the content signature after the copy. Cryptographic strength is trusted.",
+      "go/cfg must-dataflow with success-edge facts (fail-closed returns, verify-before-use), per call-site callback classification",
+      "DESIGN.md §3 C08")
+claim("C09",
+      "Decides that every header written passes SignHeader then EncryptHeader on the same variable with the configured format and recipient and no later store, that the tar writer is used only for WriteHeader and as Encrypt destination, and that the wrapper header carries only Format, Size and the encrypted JSON of the whole original header. Ciphertext secrecy is trusted to the crypto libraries.",
+      "go/cfg success-edge domination per WriteHeader site + who-may-use of the tar writer value + composite-literal shape",
+      "DESIGN.md §3 C09")
+claim("C10",
+      "Decides resource typestate on every control-flow path: each exit after a successful drive acquire has released it (and no close runs with the drive free), the tape manager's mutex is released on every error return and on every return of Close, every other mutex Lock is paired on all exits, library code has no panic / Must-compile of caller input / pipe goroutine that drops an error, and every BackendConfig binds Close* to the manager that Get* came from. Hangs caused by client pacing and injected I/O faults are not decided.",
+      "typestate may-dataflow over go/cfg with err!=nil edge refinement (drive bracket, mutex pairs) + who-may-call crash-site rule with embedded positive control",
+      "DESIGN.md §3 C10")
